@@ -601,7 +601,7 @@ Proof.
       { apply cnt_none. intros j y Hj. destruct y; simpl; auto. exfalso; eapply Hno; eauto. }
       assert (HW : cnt isW ths = 0).
       { apply cnt_none. intros j y Hj. destruct y; simpl; auto. exfalso; eapply Hno; eauto. }
-      assert (Hrd : readers lk = 0) by (rewrite (inv_readers _ _ HI); exact HR).
+      assert (Hrd : readers lk = 0) by (pose proof (inv_readers _ _ HI) as E; simpl in E; lia).
       assert (Hwr : writer lk = false).
       { destruct (writer lk) eqn:Hw; auto.
         destruct (inv_wtrue _ _ HI Hw) as [H1 _]. simpl in H1. lia. }
@@ -671,11 +671,13 @@ Proof.
     simpl. econstructor.
     { eapply step_acquire with (i := 1) (r := bad_getter) (accs := [Rd FNumLeaves]);
         [reflexivity| |reflexivity].
-      repeat constructor. simpl. auto. }
+      repeat constructor. }
     simpl. constructor.
   - exists 0, 1, (Running bad_writer [Wr FNumLeaves]), (Running bad_getter [Rd FNumLeaves]),
       (Wr FNumLeaves), (Rd FNumLeaves).
-    simpl. repeat split; auto.
+    simpl. split; [discriminate|].
+    split; [reflexivity|]. split; [reflexivity|]. split; [reflexivity|]. split; [reflexivity|].
+    split; [reflexivity|]. left. exact I.
 Qed.
 
 (** Refutation: a method that holds the W lock and calls a method that takes the lock again
